@@ -22,7 +22,7 @@ persisted) are stated on *what happens to which path* and not on one spelling of
   writer_scope_table(prog, sl)   layer_env_common.writer_scope_table on VecEffects.
 """
 from .lib import iters
-from .lib.effects import Effects, Eff, Link, eff_key, outcomes, vocab_lookup
+from .lib.effects import Effects, Eff, Link, Outcome, eff_key, outcomes, vocab_lookup
 from .lib.guards import conditions
 from .lib.mir import op_place
 from .lib.paths import strip
@@ -59,6 +59,7 @@ class VecEffects(Effects):
         self._grown = {}
         self._drained = {}
         self._psw, self._specs, self._pc, self._spec_stack = {}, {}, {}, []
+        self._only_called_memo = {}
 
     # ---- call-site specialisation --------------------------------------------------------------------------------
     # A private function that takes a switch (`existing: Option<&LayerData>`, `mode: Mode`) and is called with a literal
@@ -113,6 +114,11 @@ class VecEffects(Effects):
                         dead_edges.add((sb, tb))
         if not dead_edges:
             return None
+        return self.spec_edges(fn, dead_edges)
+
+    def spec_edges(self, fn, dead_edges):
+        """(dead blocks, dead edges, dominator sets) of fn's control flow without `dead_edges`"""
+        dead_edges = set(dead_edges)
         key = (fn.path, frozenset(dead_edges))
         if key not in self._specs:
             live, work = set(), [0]
@@ -381,7 +387,91 @@ class VecEffects(Effects):
                     break
                 self._expand_closure(fn, c, clv, list(av[1])[:max(g.argc - off, 0)], forall, mode, mapping, chain, stack, out)
                 return
+        n0 = len(out)
         Effects._expand_call1(self, fn, c, forall, mode, mapping, chain, stack, out)
+        if mode == 'may' and len(out) > n0 and not c.indirect:
+            self._drop_handed_twice(fn, c, chain, out, n0)
+
+    def _only_called(self, g, i):
+        """parameter i of workspace function g is used for nothing but being called (`f(x)` in the body of g itself): it is
+        not handed on, stored, returned or captured by a closure of g"""
+        key = (g.path, i)
+        if key in self._only_called_memo:
+            return self._only_called_memo[key]
+        self._only_called_memo[key] = False
+        isp = lambda v: isinstance(v, tuple) and len(v) > 2 and v[0] == 'param' and v[1] == g.path and v[2] == i
+
+        def clean(v, callee_pos=False):
+            # no mention of the parameter outside the callee position of an Fn*::call
+            if not isinstance(v, tuple) or not v:
+                return True
+            if isp(v):
+                return callee_pos
+            if v[0] == 'call' and v[1] in self.FN_CALL and len(v) > 2 and v[2]:
+                return clean(strip(v[2][0]), True) and all(clean(x) for x in v[2][1:])
+            return all(clean(x) for x in v if isinstance(x, tuple))
+        ok = not self.prog.closures_of(g) and i < g.argc
+        if ok:
+            for k in g.calls:
+                for ai, a in enumerate(k.args):
+                    v = self.slicer.operand(g, a)
+                    if k.decl in self.FN_CALL and ai == 0 and not k.indirect:
+                        if not (isp(strip(v)) or clean(v)):
+                            ok = False
+                    elif not clean(v):
+                        ok = False
+                if k.indirect and not clean(self.slicer.operand(g, k.fop), True):
+                    ok = False
+            ok = ok and clean(self.slicer.local(g, 0))
+        self._only_called_memo[key] = ok
+        return ok
+
+    def _drop_handed_twice(self, fn, c, chain, out, n0):
+        """`switch.apply(|x| routine(x))` with a private `apply` whose body is known: lib.effects both descends into `apply`
+        (where calling the parameter is resolved to the closure's body, under apply's own guards) and — as for any call that
+        is handed a closure — adds the closure's effects as "may run" at the handing call. When every callee only ever
+        *calls* that parameter, the second reading is the first one without its guards: one effect reported twice."""
+        callees = self.prog.callee_fns(c)
+        if not callees or any(g.path not in self.prog.fns for g in callees):
+            return
+        handed = {}
+        for ai, a in enumerate(c.args):
+            g, off = self._closure_fn(strip(self.slicer.operand(fn, a)))
+            if g is not None and g.kind == 'Closure':
+                handed[g.path] = ai
+        if not handed or not all(self._only_called(cg, ai) for cg in callees for ai in handed.values()):
+            return
+        k = len(chain)
+        callee_paths = {cg.path for cg in callees}
+
+        def entered(e):
+            # the function entered right below the handing call on this effect's chain
+            if len(e.chain or ()) <= k or not isinstance(e.chain[k], Link) or e.chain[k].call is not c:
+                return None
+            nxt = e.chain[k + 1] if len(e.chain) > k + 1 else None
+            nc = nxt.call if isinstance(nxt, Link) else (nxt if nxt is not None else e.call)
+            return nc.fn.path if nc is not None else None
+        keep = [e for e in out[n0:] if not (entered(e) in handed and entered(e) not in callee_paths)]
+        out[n0:] = keep
+
+    def _expand_closure(self, fn, c, clv, bind, forall, mode, mapping, chain, stack, out, implied=None):
+        # a closure an Option / Result combinator runs on the payload of its receiver does not run when, with the
+        # arguments of this call chain, the receiver has no payload (`switch.replacement().map_or(Ok(()), |x| replace(x))`
+        # reached with the literal `Keep`): the same arm pruning `spec` does for a `match` on the parameter itself
+        if implied is not None and mapping and implied[0] == 'unwrap':
+            x = Effects.subst(self, implied[1], mapping)
+            lit = lambda a: isinstance(a, tuple) and len(a) > 3 and a[0] == 'agg' and a[2] is not None and a[1] in self.prog.adts
+            if x[0] == 'call' and x[1] in self.prog.fns and any(lit(strip(a)) for a in x[2]):
+                try:
+                    nv = self.slicer.inline_deep(x)
+                    arms = switch_view(self.slicer, nv)
+                except Exception:
+                    nv, arms = x, None
+                if nv[0] == 'agg' and nv[1] in ('std::option::Option', 'std::result::Result') and nv[2] in ('None', 'Err'):
+                    return
+                if arms is not None and arms[0][0] == 'agg' and arms[0][2] is not None and arms[0][2] not in arms[2]:
+                    return
+        Effects._expand_closure(self, fn, c, clv, bind, forall, mode, mapping, chain, stack, out, implied)
 
     def _expand_call(self, fn, c, forall, mode, mapping, chain, stack, out):
         if forall is not None:
@@ -397,6 +487,40 @@ class VecEffects(Effects):
                     self._expand_call1(fn, c, fa, mode, m, chain, stack, out)
                 return
         Effects._expand_call(self, fn, c, forall, mode, mapping, chain, stack, out)
+
+
+def switch_view(sl, x):
+    """x: an Option / Result computed from an enum value by a private view (`fn replacement(self) -> Option<T> { match self
+    { Keep => None, Replace(v) => Some(v) } }`, possibly behind further private helpers).  On the normal form with private
+    helpers transparent such a value is a `select` over the enum value: returns (subject, enum, {variant name: payload}) —
+    the variants for which x has a payload — when every arm is either Some(..)/Ok(..) or a literal None/Err(..); else None"""
+    v = x
+    for _ in range(4):
+        while isinstance(v, tuple) and v and v[0] in ('ref', 'deref') and len(v) > 1:
+            v = v[1]
+        if not isinstance(v, tuple) or not v:
+            return None
+        if v[0] == 'select':
+            break
+        if v[0] == 'call' and v[1] in sl.prog.fns:
+            nv = sl.inline_deep(v)
+            if nv == v:
+                return None
+            v = nv
+            continue
+        return None
+    if v[0] != 'select':
+        return None
+    some = {}
+    for names, val in v[3]:
+        if val[0] != 'agg' or val[1] not in ('std::option::Option', 'std::result::Result'):
+            return None
+        if val[2] in ('Some', 'Ok') and len(val[3]) == 1:
+            for n in names:
+                some[n] = val[3][0][1]
+        elif val[2] not in ('None', 'Err'):
+            return None
+    return v[1], v[2], some
 
 
 def prune_phi(sl, v, deads):
@@ -427,16 +551,144 @@ def prune_phi(sl, v, deads):
     return nv
 
 
-def outcomes_ctx(E, fn, mapping=None, chain=(), stack=()):
+class SpecOutcome(Outcome):
+    """an Outcome read on a control-flow graph with some switch edges removed (one way through arms that meet again before
+    the success site): "after the decision" is dominance on *that* graph"""
+
+    def __init__(self, value, must, may, conds, sites, specdoms=None):
+        Outcome.__init__(self, value, must, may, conds, sites)
+        self.specdoms = specdoms or {}      # level -> (fn path, {block: dominators on the specialised graph})
+
+    def _after(self, cond, level):
+        sd = self.specdoms.get(level)
+        if sd is None or sd[0] != cond.fn.path:
+            return lambda bb: cond.fn.dominates(cond.target, bb)
+        return lambda bb: cond.target in sd[1].get(bb, ()) or cond.fn.dominates(cond.target, bb)
+
+    def region(self, cond, level, effs=None):
+        effs = self.may if effs is None else effs
+        after = self._after(cond, level)
+        return [e for e in effs if e.level is not None and (e.level > level or (e.level == level and after(e.level_bb)))]
+
+    def before(self, cond, level, effs=None):
+        effs = self.must if effs is None else effs
+        after = self._after(cond, level)
+        return [e for e in effs if e.level is not None and (e.level < level or (e.level == level and not after(e.level_bb)))]
+
+
+def split_ways(E, fn, site_bb, base_edges, split_on, cap=16):
+    """The ways to reach success site `site_bb` of fn through the arms of the variant switches `split_on(enum, subject)`
+    selects, when those arms *meet again* before the site (the common tail of all arms sunk below the `match`):
+    [(dead edges, [Cond of each forced decision, outermost first])].  One entry with no forced decision when every such
+    switch already decides the site by itself (each arm ends in its own success site)."""
+    from .lib.guards import _discr_info, Cond
+    sl = E.slicer
+    rpo = {b: i for i, b in enumerate(fn._rpo())}
+    sws = []
+    for sb, blk in enumerate(fn.blocks):
+        t = blk['t']
+        if t['t'] != 'switch' or sb not in rpo or fn.in_loop(sb):
+            continue
+        di = _discr_info(fn, sb, t['o'])
+        if not di:
+            continue
+        place, vmap, enum = di
+        subj = sl.place(fn, place)
+        if not split_on(enum, subj):
+            continue
+        listed = [v for v, _ in t['targets']]
+        by_t = {}
+        for v, tb in t['targets']:
+            by_t.setdefault(tb, set()).add(vmap.get(v, str(v)))
+        rest = {n for v, n in vmap.items() if v not in listed}
+        if rest:
+            by_t.setdefault(t['else'], set()).update(rest)
+        sws.append((rpo[sb], sb, by_t, sl.operand(fn, t['o']), subj, enum, t['else']))
+    sws.sort()
+    if not sws:
+        return [(frozenset(base_edges), [])]
+
+    def reach(start, edges):
+        seen, work = set(), [start]
+        while work:
+            b = work.pop()
+            if b in seen:
+                continue
+            seen.add(b)
+            work.extend(x for x in fn.succs(b) if (b, x) not in edges)
+        return seen
+    done = []
+
+    from .lib.value import canon
+    skey = lambda subj, enum: (canon(subj), enum)
+
+    def go(edges, forced, decided, known):
+        if len(done) > cap:
+            return
+        live = reach(0, edges)
+        for _, sb, by_t, val, subj, enum, els in sws:
+            if sb in decided or sb not in live:
+                continue
+            outs = [x for x in fn.succs(sb) if (sb, x) not in edges]
+            ways = [tb for tb in outs if site_bb in reach(tb, edges)]
+            if len(ways) < 2:
+                continue
+            k = skey(subj, enum)
+            if k in known:
+                # the same value was already decided on this way (a second look at it, e.g. the drop elaboration of a
+                # matched value after the arms met): only the arm agreeing with that decision is taken
+                agree = [tb for tb in ways if tb in by_t and by_t[tb] & known[k]]
+                if len(agree) == 1:
+                    go(edges | {(sb, x) for x in outs if x != agree[0]}, forced, decided | {sb}, known)
+                    return
+            for tb in ways:
+                if tb not in by_t:
+                    continue       # the catch-all edge of an exhaustive switch
+                cd = Cond(fn, sb, tb, 'variant', frozenset(by_t[tb]), val, subj, enum)
+                go(edges | {(sb, x) for x in outs if x != tb}, forced + [cd], decided | {sb}, _with(known, k, by_t[tb]))
+            return
+        done.append((frozenset(edges), forced))
+
+    def _with(known, k, names):
+        d = dict(known)
+        d[k] = frozenset(names)
+        return d
+    known0 = {}
+    for cd in conditions(fn, site_bb, sl):
+        if cd.kind == 'variant' and cd.subject is not None and cd.enum is not None:
+            known0[skey(cd.subject, cd.enum)] = frozenset(cd.outcome)
+    go(frozenset(base_edges), [], frozenset(), known0)
+    if not done or len(done) > cap:
+        return [(frozenset(base_edges), [])]
+    return done
+
+
+def outcomes_ctx(E, fn, mapping=None, chain=(), stack=(), split_on=None):
     """lib.effects.outcomes on the call-site specialised control flow (VecEffects.spec): success sites, certain and
-    possible effects of a function reached with literal switches are those of the arms the literals select"""
-    from .lib.effects import Outcome
+    possible effects of a function reached with literal switches are those of the arms the literals select.
+    split_on(enum, subject): the decisions that define the rows of the caller's table — a success site that several arms
+    of such a switch reach (their common tail sunk below the `match`) is read once per arm (split_ways), each on the
+    control flow without the other arms, with the forced decision among the outcome's conditions"""
     mapping = mapping or {}
     res = []
     level = len(stack)
-    sp = E.spec(fn, mapping) if mapping else None
-    dead = sp[0] if sp is not None else ()
-    for site in E.sites(fn, sp):
+    sp0 = E.spec(fn, mapping) if mapping else None
+    todo = []
+    for site in E.sites(fn, sp0):
+        ways = [(None, [])]
+        if split_on is not None:
+            ways = split_ways(E, fn, site.bb, sp0[1] if sp0 is not None else (), split_on)
+            if len(ways) == 1 and not ways[0][1]:
+                ways = [(None, [])]
+        for edges, forced in ways:
+            todo.append((site, sp0 if edges is None else E.spec_edges(fn, edges), forced))
+    for site, sp, forced in todo:
+        dead = sp[0] if sp is not None else ()
+        sdoms = {level: (fn.path, sp[2])} if forced else {}
+        def Outcome(v, mu, ma, cs, st, extra=None, sdoms=sdoms):
+            d = dict(extra or {})
+            d.update(sdoms)
+            return SpecOutcome(v, mu, ma, cs, st, d)
         must = []
         for c, forall in E.must_calls(fn, [site.bb], sp):
             if site.kind == 'tail' and c is site.call:
@@ -454,7 +706,9 @@ def outcomes_ctx(E, fn, mapping=None, chain=(), stack=()):
             for e in may[n0:]:
                 e.level, e.level_bb = level, c.bb
         conds = []
-        for cd in conditions(fn, site.bb, E.slicer):
+        own = list(conditions(fn, site.bb, E.slicer))
+        have = {(cd.sw_bb, cd.target) for cd in own}
+        for cd in own + [x for x in forced if (x.sw_bb, x.target) not in have]:
             subj = cd.subject if cd.subject is not None else cd.value
             conds.append((cd, E.subst(subj, mapping), level))
         if site.kind == 'tail':
@@ -465,8 +719,9 @@ def outcomes_ctx(E, fn, mapping=None, chain=(), stack=()):
                         res.append(Outcome(('recursion', g.path), must, may, conds, (site,)))
                         continue
                     m = E.call_mapping(fn, site.call, g, mapping)
-                    for sub in outcomes_ctx(E, g, m, chain + (Link(site.call, mapping),), stack + (fn.path,)):
-                        res.append(Outcome(sub.value, must + sub.must, may + sub.may, conds + sub.conds, (site,) + sub.sites))
+                    for sub in outcomes_ctx(E, g, m, chain + (Link(site.call, mapping),), stack + (fn.path,), split_on):
+                        res.append(Outcome(sub.value, must + sub.must, may + sub.may, conds + sub.conds, (site,) + sub.sites,
+                                           getattr(sub, 'specdoms', None)))
                 continue
             v = E.subst(E.slicer._call_value(fn, site.call, set(), 0), mapping)
             res.append(Outcome(v, must, may, conds, (site,)))
@@ -952,8 +1207,9 @@ def deep_fields(sl, v, fuel=8, keep=()):
             b, n = b[1], n + 1
         if n:
             ub = unwrap_n(sl, b, n, keep=keep)
-            if ub[0] == 'agg':
-                return sl._field(ub, out[2])
+            if ub[0] == 'agg' or (ub[0] == 'tuple' and out[2].isdigit() and int(out[2]) < len(ub[1])):
+                # (a helper returning `Ok(Some((path, text)))`: `.1` of its success payload is the text)
+                return deep_fields(sl, sl._field(ub, out[2]), fuel - 1, keep)
         return sl._field(out[1], out[2])
     return out
 
